@@ -1205,7 +1205,7 @@ func c08Plans(r *zv.Run, race bool) []c08Cfg {
 	//         then PutODSQ4 adds the Q4 file;  b: the block is stored in full, readers hold accessors that have not
 	//         touched Q4 yet, then RemoveODSQ4 + PutODSQ4 re-create the files under the same paths
 	var lazy []c08Cfg
-	for i, n := 0, r.N(16, 600); i < n; i++ {
+	for i, n := 0, r.N(16, 1200); i < n; i++ {
 		cfg := c08Cfg{Recent: i % 2, Cached: 1, Ks: []int{big, 2, 2}, Seed: root.U64(), Shape: "lazyq4"}
 		if i%4 < 2 {
 			cfg.Pre = []c08Step{{Kind: "put", H: 0}, {Kind: "put", H: 1}} // the second put evicts the in-memory square of the first
@@ -1230,7 +1230,7 @@ func c08Plans(r *zv.Run, race bool) []c08Cfg {
 
 	// (3) directed: CachedStore.GetByHeight against RemoveODSQ4 of the same height
 	var cr []c08Cfg
-	for i, n := 0, r.N(60, 3000); i < n; i++ {
+	for i, n := 0, r.N(60, 6000); i < n; i++ {
 		cfg := c08Cfg{Recent: i % 3, Cached: 1 + i%2, Ks: []int{2, 2, 2}, Seed: root.U64(), Shape: "cachedremove"}
 		cfg.Scripts = [][]c08Step{
 			{{Kind: "rm", H: 0}},
@@ -1247,7 +1247,7 @@ func c08Plans(r *zv.Run, race bool) []c08Cfg {
 
 	// (4) stress: many goroutines, all operations, three heights on one stripe, cache sizes 0..2
 	var stress []c08Cfg
-	for i, n := 0, r.N(24, 1500); i < n; i++ {
+	for i, n := 0, r.N(24, 4000); i < n; i++ {
 		seed := root.U64()
 		rng := zv.NewRand(seed)
 		ks := []int{4, 2, 8}
